@@ -265,6 +265,33 @@ def trap_plumbing(ctx):
                                 f'malformed trap call: {"; ".join(problems)}',
                                 f.file, c.lineno)
     ctx.floor('trap call sites', n_sites, 80)
+    # a saved trap is re-dispatched together with its saved details
+    rule_s = 'C07.saved-trap-redispatched-with-details'
+    ctx.rule(rule_s, 'wherever the saved trap code (self.last_trap) is '
+             're-raised, the saved details (**self.last_trap_kwargs) are '
+             'passed with it; _trap reads required details per code')
+    n = 0
+    for f in repo.all_functions():
+        if f.module.name != 'qvm.cpu':
+            continue
+        for c in walk_shallow(f.node):
+            if isinstance(c, ast.Call) and dotted(c.func) in (
+                    'self.trap', 'self._trap') and c.args and \
+                    unparse(c.args[0]) == 'self.last_trap':
+                n += 1
+                ok = any(k.arg is None and
+                         unparse(k.value) == 'self.last_trap_kwargs'
+                         for k in c.keywords)
+                construct = f'{f.file}:{f.qualname}:redispatch'
+                ctx.instance(rule_s, construct, sample={'with_details': ok})
+                if not ok:
+                    ctx.finding(rule_s, construct,
+                                f'{f.qualname} re-raises self.last_trap '
+                                f'without **self.last_trap_kwargs: for codes '
+                                f'whose report needs details (device '
+                                f'errors, type mismatch, ...) _trap raises '
+                                f'KeyError', f.file, c.lineno)
+    ctx.floor('saved-trap re-dispatch sites', n, 1)
 
 
 def _local_names(fn):
@@ -502,6 +529,25 @@ def interrupt_clause(ctx, tick):
         ctx.finding(rule, construct + ':report',
                     'the interrupt branch does not report '
                     'TrapCode.KEYBOARD_INTERRUPT', tick.file, t.line)
+    # who may write the flag: __init__ (False), signal_handler (True) and
+    # the interrupt branch of tick (False) only
+    allowed = {'QvmCpu.__init__', 'QvmCpu.signal_handler', 'QvmCpu.tick'}
+    for f in ctx.repo.all_functions():
+        if not f.module.name.startswith('qvm.'):
+            continue
+        for s in walk_shallow(f.node):
+            if isinstance(s, (ast.Assign, ast.AugAssign)):
+                tg = s.targets if isinstance(s, ast.Assign) else [s.target]
+                if any((dotted(x) or '').endswith(
+                        'received_keyboard_interrupt') for x in tg):
+                    c2 = f'{f.file}:{f.qualname}:writes-interrupt-flag'
+                    ctx.instance(rule, c2)
+                    if f.qualname not in allowed:
+                        ctx.finding(rule, c2,
+                                    f'{f.qualname} writes '
+                                    f'received_keyboard_interrupt: a pending '
+                                    f'interrupt request can be lost before '
+                                    f'tick() sees it', f.file, s.lineno)
 
 
 def category_mapping(ctx, tick, tr):
